@@ -542,11 +542,26 @@ class C13:
         base_lines = []
         for v in vals:
             p, su = rng.randint(0, 5), rng.randint(0, 1)
-            base_lines.append((p, su, v, f"enc {p} {su} - {V.render(v, sort=False)}"))
-        base_go = C.run_sharded(C.run_go, [b[3] for b in base_lines])
+            base_lines.append((p, su, "-", v, f"enc {p} {su} - {V.render(v, sort=False)}"))
+        # payloads longer than any internal scratch buffer (several hundred bytes to > 64 KiB), in every string-like type
+        for n in (511, 512, 513, 600, 1025, 4097, 70000):
+            for kind in "SYBA":
+                v = ("l", [("I", 1), (kind, bytes([97 + (n + i) % 26 for i in range(n)])), ("I", 2)])
+                for p in ((0, 1, 2, 3, 4, 5) if n <= 1025 else (1, 4)):
+                    su = rng.randint(0, 1)
+                    base_lines.append((p, su, "-", v, f"enc {p} {su} - {V.render(v, sort=False)}"))
+        # application objects written as persistent references (every hook kind), alone and inside containers
+        x1, x2 = ("X", 1), ("X", 2)
+        for v in (x1, ("l", [x1, ("I", 5), x2]), ("t", [x1, x1]), ("d", [(("S", b"k"), x1)]), ("m", [(x1, ("I", 1))]),
+                  ("c", b"m", b"n", [x1, ("S", b"arg")]), ("l", [("t", [("d", [(("I", 1), x1)])]), x2]), ("R", ("t", [x1]))):
+            for rh in ("S", "T", "E", "N"):
+                for p in range(6):
+                    su = rng.randint(0, 1)
+                    base_lines.append((p, su, rh, v, f"enc {p} {su} {rh} {V.render(v, sort=False)}"))
+        base_go = C.run_sharded(C.run_go, [b[4] for b in base_lines])
         lines, meta = [], []
         multi_of = {}
-        for (p, su, v, bl), bg in zip(base_lines, base_go):
+        for (p, su, rh, v, bl), bg in zip(base_lines, base_go):
             if bg.startswith("OK "):
                 n = len(bg[3:].split(","))
             elif bg.startswith("ERR ") and V.max_entries(v) <= 1:
@@ -554,13 +569,14 @@ class C13:
             else:
                 continue
             ks = range(1, n + 2) if (n <= 40 or ctx.thorough) else sorted(set([1, 2, n - 1, n, n + 1] + [rng.randint(1, n) for _ in range(20)]))
+            first = len(lines)
             for k in ks:
-                lines.append(f"encf {p} {su} {k} {V.render(v, sort=False)}")
+                lines.append(f"encf {p} {su} {k} {V.render(v, sort=False)}" if rh == "-" else f"encfh {p} {su} {rh} {k} {V.render(v, sort=False)}")
                 meta.append((n, k, bg))
-            lines.append(f"encw {p} {su} {V.render(v, sort=False)}")
-            meta.append((n, None, bg))
-            multi_of[len(lines) - 1] = V.max_entries(v) > 1
-            for j in range(len(lines) - len(ks) - 1, len(lines)):
+            if rh == "-":
+                lines.append(f"encw {p} {su} {V.render(v, sort=False)}")
+                meta.append((n, None, bg))
+            for j in range(first, len(lines)):
                 multi_of[j] = V.max_entries(v) > 1
         go = C.run_sharded(C.run_go, lines)
         lean_lines = [l for l in lines if l.startswith("encf")]
